@@ -19,7 +19,7 @@ static void one(c07_case *c) {
   static unsigned char in[1 << 21];
   size_t n = c07_unhex(c->pay[0], in);
   c07_setup(c, in, n);
-  ssin.p = 0; ssin.n = sizeof ssinbuf; ssout.p = 0; databytes = 0; bytestooverflow = 0;
+  ssin.p = 0; ssin.n = sizeof ssinbuf; ssout.p = 0; databytes = 0; bytestooverflow = 0; binqqargs[0] = 0;
   int code;
   h_exit_armed = 1;
   if (setjmp(h_jb) == 0) { qmtpd_main(); code = -1; } else code = h_exitcode;
@@ -192,6 +192,87 @@ static void enumerate(void) {
   }
 }
 
+/* every byte value in every peer-supplied string; address lengths 0..1030 in every role, with and without RELAYCLIENT */
+static void enumerate2(void) {
+  c07_case c; hbuf b = {0};
+  for (unsigned k = 0; k < C07_NPEERV; k++) {
+    if (C07_PEER_HELO_ONLY(k)) continue;
+    if (!c07_mine()) continue;
+    char *helo; c07_peer_variant(&c, 'M', k, &helo); free(helo);
+    hbuf_reset(&b); msg(&b, k & 1, "x\n", 2, "s@x", 3, 1, RC_OK); emit(&c, &b); c07_free(&c);
+  }
+  for (int role = 0; role < 5; role++) for (int i = 0; c07_addrlen(i) >= 0; i++) {
+    if (!c07_mine()) continue;
+    int len = c07_addrlen(i);
+    char *a = fill(len, 'q', "@ok.example"); str_t rr[3] = { S("first@ok.example"), { a, len }, S("last@ok.example") };
+    c07_defaults(&c, 'M', len + role); hbuf_reset(&b);
+    if (role == 4) { free(c.env[5]); c.env[5] = c07_hexs("@r"); }
+    if (role == 0) msg(&b, 0, "x\n", 2, a, len, 2, RC_OK);
+    if (role == 1) msg(&b, 0, "x\n", 2, "s@x", 3, 1, rr + 1);
+    if (role == 2 || role == 4) msg(&b, 0, "x\n", 2, "s@x", 3, 3, rr);
+    if (role == 3) msg(&b, 1, "x\r\n", 3, "", 0, 2, rr);
+    emit(&c, &b); c07_free(&c); free(a);
+  }
+}
+
+/* Real-queue leg (protocol letter 'm'): the real qmail-queue behind the real qmail.c - see c07_qmqpd.c real_sweep().
+ * RELAYCLIENT is set (empty) so that every recipient is handed to the queue.  A recipient with NUL or of 1000 bytes is
+ * refused on its own here (the others must be committed exactly); a disconnect or broken framing must commit nothing. */
+static void real_sweep(int quickdiv) {
+  c07_case c; hbuf b = {0};
+  static const int recs[] = { 4, 8, 16, 100 };
+  for (int ri = 0; ri < 4; ri++) {
+    int rec = recs[ri], L = rec - 2, nr = 1030 / rec + 6;
+    for (int sl = 0; sl < rec; sl++) for (int kind = 0; kind < 8; kind++) {
+      if (rec == 100 && !(kind == 1 || kind == 2)) continue;
+      if (kind == 0 && sl % 4) continue;
+      if (quickdiv > 1 && rec == 100 && (sl % quickdiv) && kind != 2) continue;
+      if (!c07_mine()) continue;
+      char *sender = fill(sl, 's', ""); static char rb[300][104]; static str_t rr[300];
+      for (int i = 0; i < nr + 3; i++) { memset(rb[i], 'a' + i % 26, L); rb[i][0] = 'r'; rr[i].s = rb[i]; rr[i].n = L; }
+      int n = nr;
+      char *longa = 0;
+      if (kind == 5) { rb[nr][L / 2] = 0; n = nr + 3; }
+      if (kind == 6) { longa = fill(1000 + sl % 5, 'l', "@x"); rr[nr].s = longa; rr[nr].n = 1000 + sl % 5; n = nr + 3; }
+      c07_defaults(&c, 'm', sl + kind); free(c.env[5]); c.env[5] = strdup("-"); hbuf_reset(&b);
+      msg(&b, sl & 1, "Subject: real\n\nbody\n", 20, sender, sl, n, rr);
+      size_t wire = (size_t)(L >= 10 ? 2 : 1) + 1 + L + 1;
+      if (kind >= 1 && kind <= 4) {
+        size_t back = kind == 1 ? 1 : kind == 2 ? 1 + wire : kind == 3 ? 1 + 2 * wire + wire / 2 : 2 + 3 * wire;
+        if (back < b.n) b.n -= back;
+      }
+      if (kind == 7) b.p[b.n - 1 - wire] = 'x';
+      emit(&c, &b); c07_free(&c); free(sender); free(longa);
+    }
+  }
+}
+static void enumerate_real(void) {
+  c07_case c; hbuf b = {0};
+  for (int k = 0; k < 9; k++) {
+    if (!c07_mine()) continue;
+    c07_defaults(&c, 'm', k); hbuf_reset(&b);
+    char *big = fill(k == 3 ? 9000 : 1500, 'b', "\n"); static char rb[40][24]; static str_t rr[40];
+    for (int i = 0; i < 40; i++) { snprintf(rb[i], 24, "u%d@h%d.sub.example", i, i % 7); rr[i].s = rb[i]; rr[i].n = strlen(rb[i]); }
+    if (k == 0) msg(&b, 0, BODY_U, sizeof BODY_U - 1, "s@x.example", 11, 2, RC_OK);
+    if (k == 1) msg(&b, 1, BODY_D, sizeof BODY_D - 1, "", 0, 4, RC_MIX);
+    if (k == 2) msg(&b, 0, big, 1500, "s@x", 3, 25, rr);
+    if (k == 3) msg(&b, 0, big, 9000, "s@x", 3, 40, rr);
+    if (k == 4) { msg(&b, 0, "one\n", 4, "s1", 2, 1, RC_OK); msg(&b, 1, "two\r\n", 5, "s2", 2, 4, RC_MIX); msg(&b, 0, "three\n", 6, "s3", 2, 2, RC_OK); }
+    if (k == 5) { c.databytes = 10; msg(&b, 0, big, 1500, "s@x", 3, 2, RC_OK); msg(&b, 0, "ok\n", 3, "s@x", 3, 1, RC_OK); }
+    if (k == 6) { msg(&b, 0, BODY_U, sizeof BODY_U - 1, "s@x", 3, 2, RC_OK); c.wfault = 1; }
+    if (k == 7) { msg(&b, 0, big, 1500, "s@x", 3, 25, rr); c.wfault = 2; }
+    if (k == 8) { static const str_t bad[] = { S("a@other.example"), S("b@nowhere") }; msg(&b, 0, "x\n", 2, "s", 1, 2, bad); }
+    emit(&c, &b); c07_free(&c); free(big);
+  }
+  { hbuf s = {0}; static const str_t r1[] = { S("u@ok.example"), S("v@other.example") };
+    msg(&s, 0, "H: v\n\nb\n", 8, "s@x", 3, 2, r1); msg(&s, 0, "2\n", 2, "t", 1, 1, r1);
+    for (size_t k = 0; k <= s.n; k++) {
+      if (!c07_mine()) continue;
+      c07_defaults(&c, 'm', (unsigned)k); hbuf_reset(&b); if (k) hbuf_add(&b, s.p, k); emit(&c, &b); c07_free(&c);
+    }
+    free(s.p); }
+}
+
 static void randoms(int nrandom, uint64_t seed) {
   c07_case c; hbuf b = {0};
   h_seed(seed * 7919ull + 17);
@@ -245,6 +326,11 @@ static void randoms(int nrandom, uint64_t seed) {
       if (mu == 4) { unsigned char x = "0:,9/"[h_below(5)]; size_t p = h_below(b.n + 1); hbuf_add(&b, &x, 1); memmove(b.p + p + 1, b.p + p, b.n - 1 - p); b.p[p] = x; }
       if (h_below(25) == 0) c.wfault = h_below(6);
       c.chunk = (int[]){ 0, 0, 1, 3, 100 }[h_below(5)];
+      if (h_below(8) == 0) { static const char *odd[] = { "e\\", "a\"b", "(c", "d)", "<e>", "f,g;h", "\x7f\x80\xff", "i\\)j(" };   /* peer strings from the whole byte range */
+        int f = h_below(5); unsigned char v[16]; size_t vn = 1 + h_below(12);
+        for (size_t i = 0; i < vn; i++) v[i] = (unsigned char)(1 + h_below(255));
+        free(c.env[f]); c.env[f] = h_below(3) ? c07_hexdup(v, vn) : c07_hexs(odd[h_below(8)]); }
+      if (h_below(25) == 0) c.proto = 'm';                     /* the same session against the real qmail-queue */
       emit(&c, &b); c07_free(&c);
     }
     h_rng_state = save;
@@ -255,11 +341,14 @@ int main(int argc, char **argv) {
   c07_init();
   if (argc > 1 && !strcmp(argv[1], "-")) {
     static char line[1 << 23];
-    while (fgets(line, sizeof line, stdin)) { c07_case c; if (c07_parse(line, &c) && c.proto == 'M' && c.npay >= 1) one(&c); }
+    while (fgets(line, sizeof line, stdin)) { c07_case c; if (c07_parse(line, &c) && toupper((unsigned char)c.proto) == 'M' && c.npay >= 1) one(&c); }
   } else {
     int nrandom = h_argi(argc, argv, 1, 1000); uint64_t seed = (uint64_t)h_argi(argc, argv, 2, 1);
-    c07_shard = h_argi(argc, argv, 3, 0); c07_nshards = h_argi(argc, argv, 4, 1);
+    c07_shard = h_argi(argc, argv, 3, 0); c07_nshards = h_argi(argc, argv, 4, 1); c07_thorough = nrandom > 50000;
     enumerate();
+    enumerate2();
+    enumerate_real();
+    real_sweep(c07_thorough ? 1 : 5);
     randoms(nrandom, seed);
   }
   c07_fini();
